@@ -153,6 +153,11 @@ func areaFleet(r *Rng, n int, dir string) (*AreaOut, error) {
 					val = []byte("v3") // empty values in shadow mode: known finding F6, reported under C11
 				}
 				aops := []appOp{{DBI: dbi, Key: key, Val: val, Del: del}}
+				if r.Chance(18) {
+					// a duplicate-keys DBI under the dupsort hack: add or remove one (key, value) pair
+					dv := pick(r, [][]byte{[]byte("v1"), []byte("v2"), []byte("x")})
+					return applyApp(insts[i].env, false, clock, []appOp{{DBI: "dups", Flags: lmdb.DupSort, Key: pick(r, keyPool[:2]), Val: dv, Del: r.Chance(35)}})
+				}
 				if r.Chance(12) {
 					// the application empties the whole DBI (every key deleted, the DBI itself stays)
 					aops = nil
@@ -410,6 +415,9 @@ func areaFleet(r *Rng, n int, dir string) (*AreaOut, error) {
 				for _, d := range dump {
 					if len(d.Name) > len(shadowPrefix) && d.Name[:len(shadowPrefix)] == shadowPrefix {
 						continue
+					}
+					if d.Flags&lmdb.DupSort != 0 {
+						continue // shadow keys of a duplicate-keys DBI are the encoded pairs (C20); convergence is checked above
 					}
 					for _, p := range d.Data {
 						lv, ok := final[i][string(fleetKey(d.Name, p.K))]
